@@ -35,7 +35,21 @@ func genC19(r *Rng, tier string, idx int) *Plan {
 		p.Knobs["limit"] = int64(r.Range(300, 1500))
 	}
 	p.Knobs["dbs"] = int64(r.Range(1, 2))
+	if idx%3 == 2 {
+		// commands of two connections interleaved with each other and with the asynchronous eviction bookkeeping
+		// (every keyspace step, store-lock acquisition and bookkeeping goroutine scheduled by the dice) under a
+		// memory limit; the figure is checked once everything has quiesced
+		p.Profile = "conc"
+		p.SKnobs["policy"] = Pick(r, []string{"allkeys-lfu", "allkeys-random", "allkeys-lru", "volatile-lru"})
+		p.Knobs["limit"] = int64(r.Range(120, 600))
+		p.Dice = drawDice(r, 192)
+	}
 	g := &GenCfg{Keys: []string{"k1", "k2", "k3", "k4"}, NowMs: 946684800000, Writes: true}
+	if p.Profile == "conc" {
+		// few keys, mostly collections that grow and shrink in place: the usage figure then changes in the
+		// re-measuring pass after the handler, the step that races with the eviction bookkeeping
+		g = &GenCfg{Keys: []string{"k1", "k2"}, NowMs: 946684800000, Writes: true, Families: map[string]bool{"set": true, "zset": true, "hash": true, "list": true}}
+	}
 	n := r.Range(5, 30)
 	if tier == "thorough" {
 		n = r.Range(5, 80)
@@ -43,6 +57,14 @@ func genC19(r *Rng, tier string, idx int) *Plan {
 	for i := 0; i < n; i++ {
 		if r.Chance(0.08) {
 			p.Ops = append(p.Ops, Op{Kind: "advance", N: int64(Pick(r, []int{100, 1000, 5000, 60000, 200000}))})
+			continue
+		}
+		if p.Profile == "conc" && r.Chance(0.8) {
+			// a pair: a write (often growing or shrinking a collection in place) next to a command of another
+			// connection that touches keys (and so triggers the bookkeeping that may evict)
+			gr := &GenCfg{Keys: g.Keys, NowMs: g.NowMs}
+			p.Ops = append(p.Ops, Op{Kind: "pairA", Args: g.Cmd(r), N: int64(r.Intn(int(p.Knobs["dbs"])))},
+				Op{Kind: "pairB", Args: gr.Cmd(r), N: int64(r.Intn(int(p.Knobs["dbs"])))})
 			continue
 		}
 		p.Ops = append(p.Ops, Op{Args: g.Cmd(r), N: int64(r.Intn(int(p.Knobs["dbs"])))})
@@ -104,9 +126,58 @@ func runC19(t *testing.T, p *Plan) *Outcome {
 			}
 			fail(kind+"/"+what, fmt.Sprintf("after op %d (%s): reported usage %d, the %d stored keys account for %d", i, what, st.MemUsed, n, sum))
 		}
-		for i, op := range p.Ops {
+		dice := p.NewDice()
+		// second connection per database for the concurrent pairs
+		var clientsB []*Client
+		if p.Profile == "conc" {
+			clientsB = []*Client{s.NewTCPClient(inst, "e0")}
+			if p.K("dbs") > 1 {
+				c1 := s.NewTCPClient(inst, "e1")
+				c1.DoSync("SELECT", "1")
+				clientsB = append(clientsB, c1)
+			}
+		}
+		for i := 0; i < len(p.Ops); i++ {
+			op := p.Ops[i]
 			if o.Sig != "" {
 				break
+			}
+			if op.Kind == "pairA" && i+1 < len(p.Ops) && p.Ops[i+1].Kind == "pairB" && clientsB != nil {
+				opB := p.Ops[i+1]
+				i++
+				nameA, nameB := strings.ToUpper(op.Args[0]), strings.ToUpper(opB.Args[0])
+				names = append(names, nameA+"||"+nameB)
+				pending := 2
+				cb := func(r Result) {
+					pending--
+					if r.Panic != "" {
+						fail("panic/conc", r.Panic)
+					}
+				}
+				clients[int(op.N)%len(clients)].Start(op.Args, cb)
+				clientsB[int(opB.N)%len(clientsB)].Start(opB.Args, cb)
+				for st := 0; st < 3000 && o.Sig == ""; st++ {
+					parked := s.ParkedTasks()
+					if len(parked) == 0 {
+						break
+					}
+					tk, stuck := PickFair(parked, dice.Next(len(parked)), 300)
+					s.noteChoice(len(parked), tk.Site)
+					if stuck {
+						fail("livelock/"+tk.Site, fmt.Sprintf("%q || %q: task t%d spun %d times at %s", op.Args, opB.Args, tk.ID, tk.Spins, tk.Site))
+						break
+					}
+					s.Release(tk)
+				}
+				s.DrainAll(3000)
+				if pending > 0 && o.Sig == "" {
+					fail("conc/never-answered", fmt.Sprintf("%q || %q: %d command(s) never answered", op.Args, opB.Args, pending))
+				}
+				check(i, "conc")
+				continue
+			}
+			if op.Kind == "pairA" || op.Kind == "pairB" {
+				op.Kind = ""
 			}
 			if op.Kind == "advance" {
 				names = append(names, "adv")
